@@ -143,6 +143,18 @@ type RecTree struct {
 	Idx  map[string]*RecTree `struct:",omitempty"`
 }
 
+// RecMap and RecSl are self-referential without a struct in the cycle.
+type RecMap map[string]RecMap
+type RecSl []RecSl
+
+// UniT has exported fields whose identifiers contain upper-case letters outside ASCII.
+type UniT struct {
+	ÄnderungsDatum int
+	ÉTAT           string
+	IDÜbersicht    int
+	Ünter          int `struct:",omitempty"`
+}
+
 // MyInt, MyStr, MySlice, MyMap are named types over supported kinds.
 type MyInt int32
 type MyStr string
@@ -221,6 +233,7 @@ var userFolders = gotype.Folders(foldRegT, foldRegObj)
 var namedTypes = map[string]reflect.Type{
 	"RegT": reflect.TypeOf(RegT{}), "RegObj": reflect.TypeOf(RegObj{}),
 	"RecNode": reflect.TypeOf(RecNode{}), "RecTree": reflect.TypeOf(RecTree{}),
+	"RecMap": reflect.TypeOf(RecMap(nil)), "RecSl": reflect.TypeOf(RecSl(nil)), "UniT": reflect.TypeOf(UniT{}),
 	"MyInt": reflect.TypeOf(MyInt(0)), "MyStr": reflect.TypeOf(MyStr("")),
 	"MySlice": reflect.TypeOf(MySlice(nil)), "MyMap": reflect.TypeOf(MyMap(nil)),
 	"ZeroT": reflect.TypeOf(ZeroT{}), "ZeroP": reflect.TypeOf(ZeroP{}),
@@ -233,7 +246,11 @@ var namedTypes = map[string]reflect.Type{
 // underlying descriptors of the named types that behave like plain kinds
 var namedUnder = map[string]TD{
 	"MyInt": {K: "int32"}, "MyStr": {K: "string"}, "MySlice": {K: "slice", E: []TD{{K: "int"}}},
-	"MyMap":   {K: "map", E: []TD{{K: "string"}}},
+	"MyMap":  {K: "map", E: []TD{{K: "string"}}},
+	"RecMap": {K: "map", E: []TD{{K: "named", ID: "RecMap"}}},
+	"RecSl":  {K: "slice", E: []TD{{K: "named", ID: "RecSl"}}},
+	"UniT": {K: "struct", F: []FD{{Name: "ÄnderungsDatum", T: TD{K: "int"}}, {Name: "ÉTAT", T: TD{K: "string"}}, {Name: "IDÜbersicht", T: TD{K: "int"}},
+		{Name: "Ünter", Opts: []string{"omitempty"}, T: TD{K: "int"}}}},
 	"ZeroT":   {K: "struct", F: []FD{{Name: "A", T: TD{K: "int"}}}},
 	"ZeroP":   {K: "struct", F: []FD{{Name: "A", T: TD{K: "int"}}}},
 	"FoldT":   {K: "struct", F: []FD{{Name: "A", T: TD{K: "int"}}}},
